@@ -8,8 +8,31 @@ import subprocess
 from . import tracefmt as tf
 from .prng import Rng
 
-CAP_REAL = 2 * 1024 * 1024
 CAP_SMALL = 4096
+
+
+def _cap_real():
+    """The staging-buffer capacity the tree under test declares (2 MiB at the
+    pinned commit).  Read from the header so that a change of the constant moves
+    the generators' aim instead of making them request sizes the API no longer
+    accepts."""
+    import re
+    from . import build as _b
+    try:
+        src = open(os.path.join(_b.REPO, "include", "ovni.h.in")).read()
+        m = re.search(r"#define OVNI_MAX_EV_BUF \(([^\n]*?)\)\s*(?:/\*|$)", src, re.M)
+        expr = re.sub(r"(\d+)[uUlL]+", r"\1", m.group(1))
+        if not re.fullmatch(r"[\d\s*+()<-]+", expr):
+            raise ValueError(expr)
+        v = int(eval(expr, {"__builtins__": {}}))
+        if 4096 < v <= 64 * 1024 * 1024:
+            return v
+    except Exception:
+        pass
+    return 2 * 1024 * 1024
+
+
+CAP_REAL = _cap_real()
 
 
 def esc(s):
